@@ -60,7 +60,7 @@ def has_quantifier(e):
         if i in seen:
             continue
         seen.add(i)
-        if z3.is_quantifier(t):
+        if z3.is_quantifier(t) and not t.is_lambda():
             return True
         stack.extend(t.children())
     return False
